@@ -94,10 +94,12 @@ type gen struct {
 	longOK  bool // long words (broken mid-word) allowed
 	feat    map[string]bool
 	hidden  []string
-	items   []string
+	items   []Item
 	inHide  bool
 	noBreak bool // inside a box that must not contain forced breaks (bounded float)
 	ahem    bool
+	inA     bool
+	gotext  bool // go-text engine: preserved white space is excluded (finding gotext-preserved-space)
 	pageSel int // px by which page selectors may shrink the content height of some pages
 }
 
@@ -250,6 +252,9 @@ func (g *gen) inlineContent(n int) {
 		switch {
 		case x < 0.12 && g.inInl < 3:
 			tag := inlineTags[g.r.Intn(len(inlineTags))]
+			if tag == "a" && g.inA {
+				tag = "span" // nested <a> elements are restructured by the HTML parser
+			}
 			g.f("inline_box")
 			extra := ""
 			if tag == "a" {
@@ -260,7 +265,12 @@ func (g *gen) inlineContent(n int) {
 			}
 			g.sb.WriteString("<" + tag + extra + g.inlineStyle() + ">")
 			g.inInl++
+			wasA := g.inA
+			if tag == "a" {
+				g.inA = true
+			}
 			g.inlineContent(1 + g.r.Intn(5))
+			g.inA = wasA
 			g.inInl--
 			g.sb.WriteString("</" + tag + ">")
 		case x < 0.15:
@@ -310,10 +320,11 @@ func (g *gen) inlineBlock() {
 	if g.chance(0.25) {
 		// block content inside the atomic inline
 		for k := 1 + g.r.Intn(2); k > 0; k-- {
-			g.sb.WriteString("<div>")
+			// not <div>: inside a <p> the HTML parser would close the paragraph
+			g.sb.WriteString(`<span style="display:block">`)
 			g.lineBreaks++
 			g.inlineContent(1 + g.r.Intn(4))
-			g.sb.WriteString("</div>")
+			g.sb.WriteString("</span>")
 		}
 	} else {
 		g.inlineContent(1 + g.r.Intn(6))
@@ -513,7 +524,7 @@ func (g *gen) blockStyle(allowBreaks bool) []string {
 		st = append(st, "line-height:"+g.pick("1", "1.5", "2", "3"))
 		g.f("line_height_change")
 	}
-	if g.chance(0.05) {
+	if g.chance(0.05) && !g.gotext {
 		v := g.pick("pre-wrap", "pre-line", "nowrap", "pre")
 		st = append(st, "white-space:"+v)
 		g.f("white_space_" + v)
@@ -550,7 +561,7 @@ func (g *gen) hideMaybe(id *string, st *[]string) (restore func()) {
 	return func() { g.inHide = false }
 }
 
-var paraTags = []string{"p", "p", "p", "p", "div", "div", "h2", "h3", "blockquote", "pre", "address"}
+var paraTags = []string{"p", "p", "p", "p", "div", "div", "h2", "h3", "blockquote", "address", "pre"}
 
 // block emits one block-level element.
 func (g *gen) block() {
@@ -586,6 +597,9 @@ func (g *gen) block() {
 
 func (g *gen) paragraph() {
 	tag := paraTags[g.r.Intn(len(paraTags))]
+	if tag == "pre" && g.gotext {
+		tag = "p"
+	}
 	if tag == "h2" || tag == "h3" || tag == "blockquote" || tag == "p" || tag == "pre" {
 		// UA margins in em: bound them with the largest possible font size
 		g.vsum += 2 * 1.5 * 48
@@ -638,16 +652,12 @@ func (g *gen) list() {
 	tag := g.pick("ul", "ol")
 	g.vsum += 2 * 48
 	st := g.blockStyle(true)
-	marker := true
-	switch g.r.Intn(8) {
-	case 0:
-		st = append(st, "list-style-type:none")
-		marker = false
-	case 1:
+	// the list style type is always explicit, so the expected marker text needs no UA style sheet
+	lstype := g.pick("disc", "disc", "circle", "square", "decimal", "decimal", "lower-alpha", "upper-roman", "none")
+	st = append(st, "list-style-type:"+lstype)
+	if g.chance(0.2) {
 		st = append(st, "list-style-position:inside")
 		g.f("marker_inside")
-	case 2:
-		st = append(st, "list-style-type:"+g.pick("decimal", "lower-alpha", "upper-roman", "square", "circle"))
 	}
 	g.sb.WriteString("<" + tag + attrs("", st) + ">")
 	g.depth++
@@ -668,8 +678,8 @@ func (g *gen) list() {
 		}
 		restore := g.hideMaybe(&id, &keep)
 		g.sb.WriteString("<li" + attrs(id, keep) + ">")
-		if marker {
-			g.items = append(g.items, id)
+		if m := markerText(lstype, k+1); m != "" {
+			g.items = append(g.items, Item{ID: id, Marker: m})
 		}
 		g.lineBreaks += 2
 		if g.chance(0.2) && g.depth < 4 {
@@ -685,6 +695,26 @@ func (g *gen) list() {
 	}
 	g.depth--
 	g.sb.WriteString("</" + tag + ">")
+}
+
+// markerText is the text of the marker of the n-th item (CSS Lists 3 / Counter Styles 3 predefined
+// styles), white space removed.
+func markerText(style string, n int) string {
+	switch style {
+	case "disc":
+		return "\u2022"
+	case "circle":
+		return "\u25e6"
+	case "square":
+		return "\u25aa"
+	case "decimal":
+		return fmt.Sprintf("%d.", n)
+	case "lower-alpha":
+		return string(rune('a'+n-1)) + "."
+	case "upper-roman":
+		return []string{"I", "II", "III", "IV", "V", "VI", "VII", "VIII", "IX", "X"}[n-1] + "."
+	}
+	return ""
 }
 
 func (g *gen) cellContent() {
@@ -883,6 +913,7 @@ func Generate(r *rand.Rand, i int, tier string) Input {
 	engine := "pango"
 	if r.Intn(100) < 5 {
 		engine = "gotext"
+		g.gotext = true
 	}
 	lh := float64(g.fs) * g.lhf
 	wEm := 3 + r.Intn(58)
@@ -942,7 +973,10 @@ func Generate(r *rand.Rand, i int, tier string) Input {
 			g.safeHost(bodyV)
 			continue
 		}
-		if !fixedDone && r.Intn(25) == 0 && g.fixed() {
+		// In a paged document the fixed box is the first child of <body>: content holding a fixed
+		// box that is pushed to the next page leaves a stale copy behind (finding
+		// fixed-duplicated-after-push), which cannot happen to the first box of the first page.
+		if !fixedDone && ((g.single && r.Intn(20) == 0) || (!g.single && k == 0 && r.Intn(8) == 0)) && g.fixed() {
 			fixedDone = true
 			continue
 		}
@@ -1181,7 +1215,9 @@ func (g *gen) safeHost(bodyV float64) {
 		kind = "abs"
 	}
 	id := g.newID(map[string]string{"float": "f", "abs": "a"}[kind])
-	g.sb.WriteString(`<div style="break-before:page">`)
+	// flow-root: the margins of the following children must not collapse through the host and move
+	// the static position of the out-of-flow box away from the page top
+	g.sb.WriteString(`<div style="break-before:page;display:flow-root">`)
 	g.f("safe_" + kind)
 	// words of the out-of-flow box: plain tokens, no inline decoration (one line per word at most)
 	var st []string
